@@ -152,6 +152,12 @@ package packet
 //@   ensures [agree] t == typecode($recv)
 //@   modifies nothing
 //
+//@ interface Generic.String() (s string)
+//@   modifies nothing
+//@ interface Generic.Len() (n int)
+//@   ensures [nonneg] n >= 0
+//@   modifies nothing
+//
 //@ func (c *Connect) Type() (t Type)
 //@   ensures t == typecode(iface(c, *Connect))
 //@ func (c *Connack) Type() (t Type)
